@@ -169,6 +169,9 @@ class SimTLSContext(object):
         self.check_hostname = False
         self.verify_mode = 0
 
+    def session_stats(self):
+        return {'number': 0, 'connect': 0, 'accept': 0}
+
     def wrap_socket(self, sock, server_side=False, server_hostname=None,
                     do_handshake_on_connect=True, **kw):
         buf = bytearray()
